@@ -291,15 +291,23 @@ func httpTransport() {
 			runCurl(cu, p, o)
 			emit(o)
 		}
-		// context cancelled before the call
-		ctx, cancel := context.WithCancel(context.Background())
-		cancel()
-		req2, _ := http.NewRequest(http.MethodGet, srv.URL+"/", nil)
-		cu2, p2 := newCurl(req2, &hdrClient{c: http.DefaultClient}, cb)
-		p2.want.Store(ctxBox{ctx})
-		err := cu2.Execute(ctx)
-		emit(&curlObs{Kind: "curl", Variant: "transport-cancelled-before", Want: -1, Callback: cb, ErrNil: err == nil, ErrClass: errClass(err),
-			Status: int(cu2.JobStatus()), Code: heldCode(cu2), CbCalls: p2.calls.Load(), CbStatus: int(p2.status.Load()), CbCtxSame: p2.ctxOK.Load()})
+		// context cancelled before the call; the request is plain or carries a value-only context of its own
+		for _, own := range []bool{false, true} {
+			ctx, cancel := context.WithCancel(context.Background())
+			cancel()
+			req2, _ := http.NewRequest(http.MethodGet, srv.URL+"/", nil)
+			if own {
+				req2, _ = http.NewRequestWithContext(context.WithValue(context.Background(), ctxKey{}, "trace-4711"), http.MethodGet, srv.URL+"/", nil)
+			}
+			hc2 := &hdrClient{c: http.DefaultClient}
+			hc2.want.Store(200)
+			cu2, p2 := newCurl(req2, hc2, cb)
+			p2.want.Store(ctxBox{ctx})
+			err := cu2.Execute(ctx)
+			emit(&curlObs{Kind: "curl", Variant: "transport-cancelled-before", Want: -1, Callback: cb, ErrNil: err == nil, ErrClass: errClass(err),
+				Status: int(cu2.JobStatus()), Code: heldCode(cu2), CbCalls: p2.calls.Load(), CbStatus: int(p2.status.Load()), CbCtxSame: p2.ctxOK.Load(),
+				Note: map[bool]string{false: "request built with http.NewRequest", true: "request built with http.NewRequestWithContext(value-only context)"}[own]})
+		}
 	}
 }
 
@@ -517,8 +525,9 @@ func cancelCases() {
 		}
 		emit(res)
 	}
-	// in-flight HTTP request
-	{
+	// in-flight HTTP request; the request is built without a context, or carries a context of its own that
+	// only holds a value (http.NewRequestWithContext): the execution context must abort it either way
+	for _, variant := range []string{"http", "http-valuectx"} {
 		inflight := make(chan struct{}, 1)
 		release := make(chan struct{})
 		srv := httptest.NewServer(http.HandlerFunc(func(w http.ResponseWriter, r *http.Request) {
@@ -529,13 +538,16 @@ func cancelCases() {
 			}
 		}))
 		req, _ := http.NewRequest(http.MethodGet, srv.URL, nil)
+		if variant == "http-valuectx" {
+			req, _ = http.NewRequestWithContext(context.WithValue(context.Background(), ctxKey{}, "trace-4711"), http.MethodGet, srv.URL, nil)
+		}
 		p := &cbProbe{}
 		p.status.Store(-1)
 		cu := job.NewCurlJobWithOptions(req, job.CurlJobOptions{HTTPClient: &http.Client{}, Callback: p.fn})
 		ctx, cancel := context.WithCancel(context.Background())
 		done := make(chan error, 1)
 		go func() { done <- cu.Execute(ctx) }()
-		res := map[string]any{"kind": "cancel", "variant": "http"}
+		res := map[string]any{"kind": "cancel", "variant": variant}
 		select {
 		case <-inflight:
 			cancel()
